@@ -1,7 +1,14 @@
 import Tengo.Props.C11
 import Tengo.Props.C11Compile
 import Tengo.Props.C11Place
+import Tengo.Props.C11PlaceBlk
+import Tengo.Props.C11PlaceBlkEx
+import Tengo.Props.C11PlaceRho
+import Tengo.Props.C11PlacePar
+import Tengo.Props.C11PlaceIife
+import Tengo.Props.C11PlaceCall
 /-! C11: the symbol-table theorems (`C11`) and rename invariance of the whole compiler model
 (`C11Compile`: a consistently renamed program compiles to the SAME bytecode), and the PLACEMENT theorem global ↦ local on
 fragment F3 (`C11Place`: the same statements over global variables / over locals of a called function compute
-the same values, on `F3.exec` and on `compileFile` + `VM.run`), as one module for the checker. -/
+the same values, on `F3.exec` and on `compileFile` + `VM.run`; `C11PlaceBlk`: with `:=` in nested blocks; `C11PlacePar`:
+variables passed as parameters; `C11PlaceIife`: immediately invoked function literal), as one module for the checker. -/
